@@ -27,6 +27,14 @@ Theorem C17_key_token : forall k r, cw_nul_free k -> cw_follow_ok r ->
 Proof. exact cw_key_token. Qed.
 Print Assumptions C17_key_token.
 
+(* the template name after `import` is exactly one string token - provided it is escaped (proposed fix) or
+   contains no byte that needs escaping: visible negated signature of the recorded finding import-unescaped *)
+Theorem C17_import_token : forall esc s rest,
+  cw_nul_free s -> (esc = true \/ forallb cw_plainb s = true) ->
+  cw_next ((if esc then cw_emit_string s else 34 :: s ++ [34]) ++ rest) = NxTok (CwTStr s) rest.
+Proof. exact cw_import_token. Qed.
+Print Assumptions C17_import_token.
+
 (* the pinned writer (regex_search, multi-line ^ $) violates the structure property *)
 Theorem C17_structure_refuted :
   cw_nul_free cw_wit_key /\
@@ -142,9 +150,9 @@ Print Assumptions C17_oracle_accepts_model.
 Theorem C17_source_facts :
   cw_opt_is f_cw_ident_regex (fun r => r = cw_regex_src) /\
   cw_opt_is f_cw_lexer_ident_regex (fun r => r = cw_lexer_regex_src) /\
-  f_cw_keyword_test_first = true /\
-  f_cw_emit_string_quotes_escaped = true /\
-  f_cw_number_fixed6 = true /\
+  cw_opt_is f_cw_keyword_test_first (fun b => b = true) /\
+  cw_opt_is f_cw_emit_string_quotes_escaped (fun b => b = true) /\
+  cw_opt_is f_cw_number_fixed6 (fun b => b = true) /\
   cw_src_mode = CwMatch /\
   filter (fun k => negb (cw_mem k cw_writer_keywords)) cw_lexer_keywords =
     [[100; 101; 98; 117; 103; 103; 101; 114]; [105; 110]] /\
